@@ -223,6 +223,45 @@ def hyp_run(ctx, stats, strategy, predicate, max_examples, salt=0, shrink=True, 
 SHRINK_BUDGET_S = {"quick": 45, "thorough": 240}
 
 
+def atheris_campaign(ctx, stats, mod, runs, salt=5):
+    """Coverage-guided libFuzzer campaign over the module's own Hypothesis strategy (vlib/atheris_run.py); the
+    module's predicate is the oracle inside the target. A finding is replayed through the plain predicate before it
+    is reported. -> failure dict or None."""
+    import subprocess
+    import tempfile
+
+    from vlib import findings
+
+    out = tempfile.mktemp(prefix="atheris_", suffix=".json")
+    p = subprocess.run([sys.executable, "-W", "ignore", "-m", "vlib.atheris_run", mod.__name__, str(runs),
+                        str(ctx.derived(salt) % 2 ** 31 or 1), out], cwd=findings.HOME, env=dict(os.environ),
+                       stdout=subprocess.PIPE, stderr=subprocess.STDOUT, timeout=3 * 3600)
+    result = {}
+    if os.path.exists(out):
+        with open(out) as fh:
+            result = json.load(fh)
+        os.unlink(out)
+    info = stats.extra.setdefault("atheris", {})
+    if p.returncode == 77 and result.get("status") == "violation":
+        fails = mod.predicate(result["case"], Stats())
+        unknown = triage(mod.PID, result["case"], fails, stats)
+        info["violation_execs"] = result.get("execs", 0)
+        if unknown:
+            return {"case": result["case"], "failures": unknown}
+        stats.inconclusive["atheris-finding-not-reproduced"] += 1
+        return None
+    if p.returncode == 3:
+        info["skipped"] = 1
+        return None
+    if p.returncode != 0:
+        stats.inconclusive["atheris-exit-%d" % p.returncode] += 1
+        info["log_tail:" + p.stdout.decode(errors="replace")[-300:]] = 1
+        return None
+    info["campaigns"] = info.get("campaigns", 0) + 1
+    info["runs"] = info.get("runs", 0) + runs
+    return None
+
+
 def shrink_budget_exceeded(sink, tier="quick"):
     """State machines ask this at the start of every step (see hyp_run for the rationale)."""
     if sink and "t0" in sink and time.time() - sink["t0"] > SHRINK_BUDGET_S.get(sink.get("tier", tier), 45):
